@@ -137,48 +137,55 @@ Section Keys.
      subject is [dg], of that artifact type: all of them, once, in registry order. *)
   Theorem referrers_paged g dg (cap : nat) (ds : nat -> P.decision)
           (render : nat -> P.url -> P.url -> str) (trailer : nat -> str)
-          (resolve : P.url -> str -> option P.url) (c : P.cfg) (path : str) (fuel : nat) :
+          (resolve : P.url -> str -> option P.url) (c : P.cfg)
+          (cu : P.cursor) (npath : nat -> str -> str) (vis : P.item -> bool) (path : str) (fuel : nat) :
     keys_ok g ->
+    PP.cursor_ok cu ->
     P.c_kind c = P.KReferrers ->
     (forall i base x, In x (map fst (ref_items g dg)) ->
-       contains P.c_gt (render i base (PP.link_target (ds i) base x)) = false) ->
+       contains P.c_gt (render i base (PP.link_target ds cu npath i base x)) = false) ->
     (forall i base x, In x (map fst (ref_items g dg)) ->
-       resolve base (render i base (PP.link_target (ds i) base x)) = Some (PP.link_target (ds i) base x)) ->
+       resolve base (render i base (PP.link_target ds cu npath i base x)) = Some (PP.link_target ds cu npath i base x)) ->
     (forall i, (Z.of_N (P.d_doc_len (ds i)) <= P.eff_limit (P.c_limit c))%Z) ->
     (forall i, P.qget P.k_at (P.d_extra (ds i)) = None) ->
     (length (ref_items g dg) < fuel)%nat ->
-    let t := P.loop (P.reg_serve P.KReferrers (ref_items g dg) cap ds render trailer) resolve (fun _ => false) c
+    let t := P.loop (P.reg_serve P.KReferrers cu npath vis (ref_items g dg) cap ds render trailer) resolve (fun _ => false) c
                     fuel 0 0 (P.mkUrl path (PP.referrers_query (P.c_at c))) [] in
     P.t_out t = P.Done /\
-    concat (P.t_pages t) = P.filter_referrers (ref_items g dg) (P.c_at c) /\
+    concat (P.t_pages t) = P.filter_referrers (filter vis (ref_items g dg)) (P.c_at c) /\
     (length (P.t_reqs t) <= S (length (ref_items g dg)))%nat.
   Proof.
-    intros [Hn Hf] K Hgt Hres Hfit Hex Hfuel.
+    intros [Hn Hf] Hcu K Hgt Hres Hfit Hex Hfuel.
     apply PP.referrers_exactly_once; auto.
     - now apply ref_items_nodup.
     - intros it Hin. rewrite Forall_forall in Hf. apply Hf. apply ref_items_in with (dg := dg).
       now apply in_map.
   Qed.
 
-  (* Predecessors = Referrers with no artifact type: the digests of the concatenated pages
-     are the digests of [referrers_of], the list C13_predecessors_reflect speaks of *)
-  Corollary predecessors_paged g dg cap ds render trailer resolve c path fuel :
-    keys_ok g -> P.c_kind c = P.KReferrers -> P.c_at c = [] ->
+  Lemma filter_all {A} (f : A -> bool) l : (forall x, f x = true) -> filter f l = l.
+  Proof. intro Hf. induction l as [|x l IH]; cbn; [reflexivity|]. now rewrite Hf, IH. Qed.
+
+  (* Predecessors = Referrers with no artifact type, against a registry that shows every entry:
+     the digests of the concatenated pages are the digests of [referrers_of], the list
+     C13_predecessors_reflect speaks of *)
+  Corollary predecessors_paged g dg cap ds render trailer resolve c cu npath vis path fuel :
+    keys_ok g -> PP.cursor_ok cu -> P.c_kind c = P.KReferrers -> P.c_at c = [] ->
+    (forall it, vis it = true) ->
     (forall i base x, In x (map fst (ref_items g dg)) ->
-       contains P.c_gt (render i base (PP.link_target (ds i) base x)) = false) ->
+       contains P.c_gt (render i base (PP.link_target ds cu npath i base x)) = false) ->
     (forall i base x, In x (map fst (ref_items g dg)) ->
-       resolve base (render i base (PP.link_target (ds i) base x)) = Some (PP.link_target (ds i) base x)) ->
+       resolve base (render i base (PP.link_target ds cu npath i base x)) = Some (PP.link_target ds cu npath i base x)) ->
     (forall i, (Z.of_N (P.d_doc_len (ds i)) <= P.eff_limit (P.c_limit c))%Z) ->
     (forall i, P.qget P.k_at (P.d_extra (ds i)) = None) ->
     (length (ref_items g dg) < fuel)%nat ->
-    let t := P.loop (P.reg_serve P.KReferrers (ref_items g dg) cap ds render trailer) resolve (fun _ => false) c
+    let t := P.loop (P.reg_serve P.KReferrers cu npath vis (ref_items g dg) cap ds render trailer) resolve (fun _ => false) c
                     fuel 0 0 (P.mkUrl path []) [] in
     P.t_out t = P.Done /\
     map fst (concat (P.t_pages t)) = map d_dg (referrers_of sj g dg).
   Proof.
-    intros Hk K Ha Hgt Hres Hfit Hex Hfuel.
-    destruct (referrers_paged g dg cap ds render trailer resolve c path fuel Hk K Hgt Hres Hfit Hex Hfuel)
+    intros Hk Hcu K Ha Hv Hgt Hres Hfit Hex Hfuel.
+    destruct (referrers_paged g dg cap ds render trailer resolve c cu npath vis path fuel Hk Hcu K Hgt Hres Hfit Hex Hfuel)
       as (A & B & _).
-    rewrite Ha in *. cbn in A, B. split; [exact A|]. rewrite B. apply ref_items_names.
+    rewrite Ha in *. cbn in A, B. split; [exact A|]. rewrite B, (filter_all vis _ Hv). apply ref_items_names.
   Qed.
 End Keys.
